@@ -30,13 +30,15 @@ def predicate(h):
 
 def run(ctx):
     st = storeprop.run(ctx, ID, THEOREMS, "Props/C05.v", PROFILE, (30, 45), 100, 900, predicate, RULE,
-                       extra_targets=["Pure/DimLinkCheck.vo"])
+                       extra_targets=["Pure/DimLinkCheck.vo", "Pure/TableCheck.vo"])
     # the dimension clauses: range / set dimensions linked to a vector of an array
     import dimlink
     thorough = ctx.tier == "thorough"
     cov = dimlink.stage(ctx, st, 1200 if thorough else 150, 18 if thorough else 14, [dimlink.alias_predicate])
     ctx.coverage.update(cov)
     ctx.coverage["evaluations"] += sum(cov["dimension_ops"].values())
+    from props import c16
+    ctx.coverage.update(c16.frame_stage(ctx, st, 600 if thorough else 90, "a change made through one path is visible through all others"))
     ctx.coverage["rule"] += (" Dimension links: histories on a host array's range and set dimension and a target array of rank 1-2 "
                              "(ticks incl. descending, links with every class of index specification incl. out-of-range vectors, "
                              "unlink, unit/label through the dimension and through the target, cell writes, reopen); stored fields "
